@@ -108,4 +108,9 @@ pub struct KChild {
     /// refused (tens of thousands of attempts without tens of thousands of list entries)
     #[serde(default)]
     pub outage: Option<(usize, u32)>,
+    /// the window changes size between two *size queries* of the client (not between two events):
+    /// just before its n-th TIOCGWINSZ query is answered the terminal becomes w x h
+    /// (query index, w, h). A program that asks twice within one draw sees two different answers.
+    #[serde(default)]
+    pub winsz_ops: Vec<(u64, u16, u16)>,
 }
